@@ -236,8 +236,19 @@ def lazy(ctx):
             and norm(rest[0].value) == 'super()._fold(%s)' % u.params[1]
         ctx.ob(ok, u, 'otherwise the generic fold is used: %s' % [norm(r) for r in rest])
     iu = ctx.unit('reduction.Flatten.__init__')
-    sel = [n for n in iu.node.body if isinstance(n, ast.If) and norm(n.test) == "init == 'lazy'"]
-    ok = len(sel) == 1 and any(norm(s) == 'self.lazy = True' for s in sel[0].body) and any(norm(s) == 'self.lazy = False' for s in sel[0].orelse)
+    # what self.lazy holds at the end of the constructor, with the test on init decided either way
+    from ..util import case_paths
+    prm = 'init'
+    stored = {}
+    for case in (True, False):
+        outs, _ = case_paths(iu.node.body, lambda t, case=case: case if norm(t) in ("%s == 'lazy'" % prm, "'lazy' == %s" % prm) else
+                             (not case if norm(t) in ("%s != 'lazy'" % prm,) else None))
+        vals = set()
+        for kind, e, st, env in outs:
+            v = env.get('%s.lazy' % iu.params[0])
+            vals.add(norm(v) if v is not None else None)
+        stored[case] = vals
+    ok = stored[True] == {'True'} and stored[False] == {'False'}
     ctx.ob(ok, iu, "init='lazy' turns the lazy path on, anything else off")
     ctx.floor(5)
 
@@ -402,22 +413,23 @@ def wiring(ctx):
 def text_is_not_iterable(ctx):
     """the default 'iterate' registration (what Fold / Flatten / Merge reach through target_iter)
     treats exactly str and bytes as scalars; everything else with __iter__ is iterable"""
-    from ..util import decision_function, Undecidable
+    import itertools
+    from ..util import boolean_function, Undecidable
     u = ctx.unit('core._AbstractIterable.__subclasshook__')
     c = u.params[1]
     try:
-        atoms, decide = decision_function(u)
+        atoms, f = boolean_function(u)
     except Undecidable as e:
         ctx.ob(False, u, 'the iterability test is a decision over the candidate class', str(e))
         return
-    excl = [a for a in atoms]
-    want = '%s in (str, bytes)' % c
-    ok = len(atoms) == 1 and (atoms[0] == want or atoms[0] == '%s in (bytes, str)' % c)
+    TEXT = [a for a in atoms if a in ('%s in (str, bytes)' % c, '%s in (bytes, str)' % c)]
+    ITER = "callable(getattr(%s, '__iter__', None))" % c
+    ok = len(TEXT) == 1 and set(atoms) == {TEXT[0], ITER}
     ctx.ob(ok, u, 'text scalars are excluded by identity with str / bytes: %s' % atoms,
-           '' if ok else 'expected the single test `%s`' % want)
+           '' if ok else 'expected the conditions `%s in (str, bytes)` and `%s` only' % (c, ITER))
     if ok:
-        a = atoms[0]
-        ctx.ob(decide({a: True}) == ('return', 'False'), u, 'str and bytes are not iterable targets')
-        ctx.ob(decide({a: False}) == ('return', "callable(getattr(%s, '__iter__', None))" % c), u,
-               'any other class with a callable __iter__ is: %s' % (decide({a: False}),))
+        table = {vals: f(dict(zip((TEXT[0], ITER), vals))) for vals in itertools.product((False, True), repeat=2)}
+        ctx.ob(not table[(True, False)] and not table[(True, True)], u, 'str and bytes are not iterable targets')
+        ctx.ob(table[(False, True)] and not table[(False, False)], u,
+               'any other class with a callable __iter__ is (and only those): %s' % sorted(table.items()))
     ctx.floor(2)
